@@ -67,7 +67,8 @@ TRUSTED = [
     "simnet (in-memory transports, virtual clock) drives the real aioftp.Server faithfully",
 ]
 ASSUMPTIONS = [
-    "modelled, not verified: user managers other than MemoryUserManager whose get_user/notify_logout really suspend",
+    "modelled, not verified: user managers whose get_user, or notify_logout called from user(), really suspend (a notify_logout "
+    "that suspends in the teardown task is inside the model: phase Closing, event LogoutRuns, and is exercised)",
     "under asyncio's FIFO scheduling the greeting task always runs before its dispatcher can end; the model also covers the "
     "order 'session ends before the greeting ran' (never observed on the implementation)",
 ]
@@ -835,7 +836,12 @@ def correspondence(ctx, budget=None):
         "over <= 3 sessions, run on the real Server on simnet and on the extracted model; streams: (a) bounded-exhaustive: every "
         "sequence up to depth d over <= 2 sessions for a set of limit configurations, (b) crash points: 5 base scripts cut after "
         "every action by every ending kind on every session, then continued, (c) random histories over 3 sessions incl. bursts and "
-        "byte-by-byte segmentation; configurations: server limit {None,1,2} x limit(a) {None,1,2} x limit(b) {None,1,2} x user lists "
+        "byte-by-byte segmentation, (d) inside a session's teardown: with a user manager whose logout notification (started by the "
+        "dispatcher's finally as its own task) stays suspended until the harness releases it, Server.close(), a second close(), the "
+        "other session's end and the releases are placed in every order inside the window (sequences up to length 2 exhaustively, "
+        "length 3 sampled; the model's Closing phase / LogoutRuns event), and with the stock manager Server.close() k = 0..14 loop "
+        "iterations after QUIT/EOF/RST, optionally a second close() k2 iterations after the first was started; afterwards the SAME "
+        "Server object is started again and a fresh session must be admitted as the counters say; configurations: server limit {None,1,2} x limit(a) {None,1,2} x limit(b) {None,1,2} x user lists "
         "{[a,b], [a,anonymous], [anonymous,a]} plus limit 0. One evaluation = one (configuration, history prefix): the real counter "
         "objects, session flags and reply codes compared with the model and the conservation equations evaluated on the real "
         "objects; non-trivial = distinct (configuration, prefix)."
